@@ -75,7 +75,7 @@ A_START, A_OK, A_FAIL, A_CANCEL, A_TICK, A_SETTLE = range(6)
 # asyncio backend's default lock (asyncio.Lock, CPython, which lets a newcomer in when every queued waiter is already
 # cancelled) the comparison is made at quiescence only: the acquisition order is the same, the iteration at which it
 # happens is not.
-TICK_KINDS = (0, 2, 3, 5, 7)
+TICK_KINDS = (0, 1, 2, 3, 4, 5, 7)
 
 _SOCK = None
 
